@@ -10,12 +10,15 @@
 (***************************************************************************)
 EXTENDS Integers, Sequences, FiniteSets, TLC, Json
 
-CONSTANTS MaxOps, Modes, Budgets, Methods, TolSets, EditOps, EmitOn
+CONSTANTS MaxOps, Modes, Budgets, Methods, TolSets, Matrix, EditOps, EmitOn
+(* Matrix: "plain" | "update" (only_update_hydraulic_matrix) | "reuse" (update + reuse_internal_data) *)
 
-VARIABLES cond, edited, hydflag, conv, res, hist
-vars == <<cond, edited, hydflag, conv, res, hist>>
+VARIABLES cond, edited, struct, uopts, cache, hydflag, conv, res, hist
+vars == <<cond, edited, struct, uopts, cache, hydflag, conv, res, hist>>
+(* cache: the structure <<cond, struct>> the kept internal data (matrix sparsity) belongs to, or "none".  *)
+(* reuse_internal_data is legitimate only while the structure is the one the data was built for. *)
 
-Init == cond = "ok" /\ edited = FALSE /\ hydflag = FALSE /\ conv = FALSE /\ res = "none" /\ hist = <<>>
+Init == cond = "ok" /\ edited = FALSE /\ struct = FALSE /\ uopts = FALSE /\ cache = <<"none">> /\ hydflag = FALSE /\ conv = FALSE /\ res = "none" /\ hist = <<>>
 
 Outcome(mode, budget) ==
     IF cond = "nosupply" THEN "PipeflowNotConverged"
@@ -23,33 +26,46 @@ Outcome(mode, budget) ==
     ELSE IF budget = "starved" THEN "PipeflowNotConverged"
     ELSE "returned"
 
-Run(mode, budget, method, tols) ==
+Run(mode, budget, method, tols, mx) ==
     LET o == Outcome(mode, budget) IN
+    /\ (mx = "reuse" => cache \in {<<"none">>, <<cond, struct>>})
+    /\ cache' = IF cond # "ok" \/ mode = "heat" THEN cache          \* fails before / never reaches the hydraulic stage
+                ELSE IF mx = "reuse" THEN <<cond, struct>> ELSE <<"none">>
     /\ conv' = (o = "returned")
     /\ res' = IF o = "returned" THEN mode ELSE "none"       \* failed run: no table holds a number
     /\ hydflag' = (hydflag \/ (o = "returned" /\ mode # "heat"))
-    /\ hist' = Append(hist, [op |-> "run", mode |-> mode, budget |-> budget, method |-> method, tols |-> tols, expect |-> o])
-    /\ UNCHANGED <<cond, edited>>
+    /\ hist' = Append(hist, [op |-> "run", mode |-> mode, budget |-> budget, method |-> method, tols |-> tols, matrix |-> mx, expect |-> o])
+    /\ UNCHANGED <<cond, edited, struct, uopts>>
 
 Break == cond = "ok" /\ cond' = "nosupply" /\ hist' = Append(hist, [op |-> "break"])
-         /\ UNCHANGED <<edited, hydflag, conv, res>>
+         /\ UNCHANGED <<edited, struct, uopts, cache, hydflag, conv, res>>
 Repair == cond = "nosupply" /\ cond' = "ok" /\ hist' = Append(hist, [op |-> "repair"])
-          /\ UNCHANGED <<edited, hydflag, conv, res>>
+          /\ UNCHANGED <<edited, struct, uopts, cache, hydflag, conv, res>>
 Edit == ~edited /\ edited' = TRUE /\ hist' = Append(hist, [op |-> "edit"])
-        /\ UNCHANGED <<cond, hydflag, conv, res>>
+        /\ UNCHANGED <<cond, struct, uopts, cache, hydflag, conv, res>>
 Undo == edited /\ edited' = FALSE /\ hist' = Append(hist, [op |-> "undo"])
-        /\ UNCHANGED <<cond, hydflag, conv, res>>
+        /\ UNCHANGED <<cond, struct, uopts, cache, hydflag, conv, res>>
+(* a structural edit that keeps the net feasible (a parallel branch out of service) and its undo *)
+StructOff == ~struct /\ struct' = TRUE /\ hist' = Append(hist, [op |-> "struct_off"])
+        /\ UNCHANGED <<cond, edited, uopts, cache, hydflag, conv, res>>
+StructOn == struct /\ struct' = FALSE /\ hist' = Append(hist, [op |-> "struct_on"])
+        /\ UNCHANGED <<cond, edited, uopts, cache, hydflag, conv, res>>
+(* the user stores / changes / clears calculation options on the net *)
+SetUser(v) == uopts' = (v # "clear") /\ hist' = Append(hist, [op |-> "setuser", v |-> v])
+        /\ UNCHANGED <<cond, edited, struct, cache, hydflag, conv, res>>
 SaveLoad(path) == hist' = Append(hist, [op |-> "saveload", path |-> path])
-        /\ UNCHANGED <<cond, edited, hydflag, conv, res>>
+        /\ UNCHANGED <<cond, edited, struct, uopts, cache, hydflag, conv, res>>
 
 Finish == /\ EmitOn /\ Len(hist) = MaxOps
           /\ PrintT(ToJson([vp |-> "HIST", hist |-> hist]))
           /\ UNCHANGED vars
 
 Next == \/ /\ Len(hist) < MaxOps
-           /\ \/ \E m \in Modes, b \in Budgets, me \in Methods, ts \in TolSets : Run(m, b, me, ts)
+           /\ \/ \E m \in Modes, b \in Budgets, me \in Methods, ts \in TolSets, mx \in Matrix : Run(m, b, me, ts, mx)
               \/ Break \/ Repair
               \/ ("edit" \in EditOps /\ (Edit \/ Undo))
+              \/ ("struct" \in EditOps /\ (StructOff \/ StructOn))
+              \/ ("user" \in EditOps /\ \E v \in {"iter30", "iter40", "clear"} : SetUser(v))
               \/ \E p \in EditOps \cap {"json_string", "json_file", "pickle", "json_encrypted"} : SaveLoad(p)
         \/ Finish
 Spec == Init /\ [][Next]_vars
